@@ -5,8 +5,12 @@ package formatting
 
 // Indented(f) and Delimited(w, sep, items, action) call nothing dynamically except the function they are given.
 //@ callback-parametric file internal/formatting/formatting.go
+// ToSnakeCase reads nothing but its argument and the two package-level regexp2 patterns, which are compiled once at
+// initialisation and never reassigned: its result is taken not to depend on heap changes of a caller (assumption,
+// reported in the evidence of every function that relies on it).
 //@ func ToSnakeCase
 //@   pure
+//@   stable
 //@ func ToPascalCase
 //@   pure
 
